@@ -1,0 +1,7 @@
+//go:build !verif
+// +build !verif
+
+package exec
+
+// verifWorkerInit is a verification hook; it does nothing in normal builds.
+func verifWorkerInit(*worker) {}
